@@ -29,9 +29,9 @@ from vh import core, pytolean
 
 GEN_DIR = os.path.join(core.LEAN_DIR, 'SkModel', 'Gen')
 PROP_FUNCS = {
-    'C11': ['find_token', 'find_token_reverse', 'try_find_line', 'try_find_line_with_date'],
-    'C04': ['find_token', 'find_token_reverse', 'try_find_line', 'try_find_line_with_date'],
-    'C13': ['find_token', 'find_token_reverse', 'try_find_line', 'try_find_line_with_date'],
+    'C11': ['find_token', 'find_token_reverse', 'try_find_line', 'try_find_line_with_date', 'getitem'],
+    'C04': ['find_token', 'find_token_reverse', 'try_find_line', 'try_find_line_with_date', 'getitem'],
+    'C13': ['find_token', 'find_token_reverse', 'try_find_line', 'try_find_line_with_date', 'getitem'],
     'C16': ['since_window', 'line_date_is_valid', 'apply_to_line'],
     'C18': ['num_parallel_tasks'],
 }
@@ -66,7 +66,7 @@ def _recheck(text):
     with open(os.path.join(GEN_DIR, 'Bridge.lean')) as f:
         bridge = f.read()
     src = ("import SkModel.Gen.PyPrim\nimport SkModel.Runner\nimport SkModel.Since\n"
-           "import SkModel.Theorems.C16\n"
+           "import SkModel.Theorems.C16\nimport SkModel.Proofs.SeekShape\n"
            + _strip_imports(text) + _strip_imports(bridge)
            + ''.join(f"#print axioms Sk.Gen.bridge_{n}\n" for n in ALL_FUNCS))
     out = _lean(src)
@@ -261,6 +261,16 @@ def check(rep, prop):
         st = _recheck(text)
         for n, e in errors.items():
             st[n] = 'untranslatable: ' + e
+        # a caller of a function whose own bridge is gone cannot keep its bridge either
+        deps = {sp['name']: list(sp.get('callees', {}).values()) for sp in pytolean.FUNCS}
+        changed = True
+        while changed:
+            changed = False
+            for n, ds in deps.items():
+                bad = [d for d in ds if st.get(d, 'proved') != 'proved']
+                if bad and st.get(n) in ('proved', 'proof-broken'):
+                    st[n] = f'not available: depends on {bad[0]} ({st[bad[0]].split(":")[0]})'
+                    changed = True
         broken = [n for n in ('find_token', 'find_token_reverse', 'try_find_line')
                   if st.get(n) == 'proof-broken']
         dis, complete = _small_scope(text, broken) if broken else ([], True)
